@@ -6,7 +6,8 @@ import RedisVerif.Props.C02
   C02 sub-driver (stateful): collects one observed concurrent history and runs the VERIFIED
   per-key linearizability checker on it.
     NEW                 → ok
-    I <id> <CMD …>      → ok     invocation (ids = global invocation stamps, increasing)
+    I <id> <CMD …>      → ok     invocation (ids = global invocation stamps, increasing); an item of a
+                                 batched call is `BGET 1 k` / `BSET 1 k v` with the call's interval
     R <id> <reply>      → ok     response, canonical reply text of the harness
     CHECK               → lin | not-lin
 -/
@@ -26,23 +27,26 @@ def parseR1 (t : String) : Option R1 :=
 /-- history so far, newest first -/
 abbrev DState := List (Ev (Cmd sig) Reply)
 
-def singleKey : Cmd sig → Bool
-  | .single _ _ => true
-  | .fastGet _ => true
-  | .fastSet _ _ => true
-  | _ => false
+/-- a reply: plain, or `m:[r]` for one item of a batched call -/
+def parseReply (t : String) : Option Reply :=
+  match t.toList with
+  | 'm' :: ':' :: '[' :: rest =>
+    match rest.reverse with
+    | ']' :: inner => (parseR1 (String.ofList inner.reverse)).map (fun r => Reply.many [r])
+    | _ => none
+  | _ => (parseR1 t).map Reply.one
 
 def step (d : DState) (line : String) : DState × String :=
   match tokens line with
   | ["NEW"] => ([], "ok")
   | ["CHECK"] => (d, if RedisVerif.C02.checkLin d.reverse then "lin" else "not-lin")
   | ["R", id, rep] =>
-    match id.toNat?, parseR1 rep with
-    | some i, some r => (.res i (.one r) :: d, "ok")
+    match id.toNat?, parseReply rep with
+    | some i, some r => (.res i r :: d, "ok")
     | _, _ => (d, "bad-op")
   | "I" :: id :: rest =>
     match id.toNat?, (C03.parseCmd.run rest) with
-    | some i, some (c, []) => if singleKey c then (.inv i c :: d, "ok") else (d, "bad-op")
+    | some i, some (c, []) => if SingleKey c then (.inv i c :: d, "ok") else (d, "bad-op")
     | _, _ => (d, "bad-op")
   | _ => (d, "bad-op")
 
